@@ -346,4 +346,110 @@ theorem appendSvc_nodup_hostnames (acc : List Svc) (s : Svc)
           · exact h
           · rw [hrep { ex with ports := mergePorts ex.ports s.ports } hexh]; exact h
 
+/-! ### `pickBestVisibleNamespace` ranges over a Go map: order independence -/
+
+theorem oldest_isSome {l : List (String × Svc)} (h : l ≠ []) : ∃ p, oldest l = some p := by
+  cases l with
+  | nil => exact absurd rfl h
+  | cons a t =>
+    unfold oldest
+    cases oldest t with
+    | none => exact ⟨a, rfl⟩
+    | some b => simp only; split <;> exact ⟨_, rfl⟩
+
+theorem oldest_min {l : List (String × Svc)} {p : String × Svc} (h : oldest l = some p) :
+    ∀ q ∈ l, p.2.ctime ≤ q.2.ctime := by
+  induction l generalizing p with
+  | nil => simp [oldest] at h
+  | cons a t ih =>
+    unfold oldest at h
+    cases ho : oldest t with
+    | none =>
+      simp only [ho] at h; cases h
+      intro q hq
+      rcases List.mem_cons.mp hq with hq | hq
+      · subst hq; exact Nat.le_refl _
+      · cases t with
+        | nil => simp at hq
+        | cons b t' =>
+          obtain ⟨r, hr⟩ := oldest_isSome (l := b :: t') (by simp)
+          rw [ho] at hr; cases hr
+    | some b =>
+      simp only [ho] at h
+      have hb := ih ho
+      split at h
+      · rename_i hlt
+        cases h
+        intro q hq
+        rcases List.mem_cons.mp hq with hq | hq
+        · subst hq; omega
+        · exact hb q hq
+      · rename_i hlt
+        cases h
+        intro q hq
+        rcases List.mem_cons.mp hq with hq | hq
+        · subst hq; exact Nat.le_refl _
+        · have := hb q hq; omega
+
+/-- **pickBest_order_independent_partial**: the namespace `pickBestVisibleNamespace` returns does
+    not depend on the iteration order of the Go map, provided the visible Kubernetes services for the
+    hostname live in one namespace and visible services with equal creation time live in one
+    namespace (what the generator guarantees; otherwise see the witness below). -/
+theorem pickBest_order_independent_partial (m : Mesh) (l1 l2 : List (String × Svc)) (cfgNs : String)
+    (hperm : ∀ p, p ∈ l1 ↔ p ∈ l2)
+    (hk : ∀ p ∈ l1, ∀ q ∈ l1, isServiceVisible m p.2 cfgNs = true → isServiceVisible m q.2 cfgNs = true →
+      p.2.k8s = true → q.2.k8s = true → p.2.ns = q.2.ns)
+    (hc : ∀ p ∈ l1, ∀ q ∈ l1, isServiceVisible m p.2 cfgNs = true → isServiceVisible m q.2 cfgNs = true →
+      p.2.ctime = q.2.ctime → p.2.ns = q.2.ns) :
+    pickBest m l1 cfgNs = pickBest m l2 cfgNs := by
+  simp only [pickBest]
+  have hv : ∀ p, p ∈ l1.filter (fun p => isServiceVisible m p.2 cfgNs) ↔ p ∈ l2.filter (fun p => isServiceVisible m p.2 cfgNs) := by
+    intro p; simp only [List.mem_filter, hperm p]
+  generalize hv1 : l1.filter (fun p => isServiceVisible m p.2 cfgNs) = v1 at hv
+  generalize hv2 : l2.filter (fun p => isServiceVisible m p.2 cfgNs) = v2 at hv
+  have inl1 : ∀ p ∈ v1, p ∈ l1 ∧ isServiceVisible m p.2 cfgNs = true := by
+    intro p hp; rw [← hv1] at hp; exact List.mem_filter.mp hp
+  cases hf1 : v1.find? (·.2.k8s) with
+  | some p1 =>
+    have hp1 := List.mem_of_find?_eq_some hf1
+    have hp1k : p1.2.k8s = true := by simpa using List.find?_some hf1
+    have : (v2.find? (·.2.k8s)).isSome = true := List.find?_isSome.mpr ⟨p1, (hv p1).mp hp1, hp1k⟩
+    obtain ⟨p2, hf2⟩ := Option.isSome_iff_exists.mp this
+    have hp2 := (hv p2).mpr (List.mem_of_find?_eq_some hf2)
+    have hp2k : p2.2.k8s = true := by simpa using List.find?_some hf2
+    simp only [hf2]
+    exact hk p1 (inl1 p1 hp1).1 p2 (inl1 p2 hp2).1 (inl1 p1 hp1).2 (inl1 p2 hp2).2 hp1k hp2k
+  | none =>
+    have hn2 : v2.find? (·.2.k8s) = none := by
+      rw [List.find?_eq_none] at hf1 ⊢
+      intro x hx; exact hf1 x ((hv x).mpr hx)
+    simp only [hn2]
+    by_cases he : v1 = []
+    · have he2 : v2 = [] := by
+        cases v2 with
+        | nil => rfl
+        | cons a t => have := (hv a).mpr List.mem_cons_self; rw [he] at this; simp at this
+      rw [he, he2]
+    · have he2 : v2 ≠ [] := by
+        intro h2
+        cases v1 with
+        | nil => exact he rfl
+        | cons a t => have := (hv a).mp List.mem_cons_self; rw [h2] at this; simp at this
+      obtain ⟨p1, ho1⟩ := oldest_isSome he
+      obtain ⟨p2, ho2⟩ := oldest_isSome he2
+      simp only [ho1, ho2]
+      have m1 := oldest_mem ho1
+      have m2 := (hv p2).mpr (oldest_mem ho2)
+      have le1 := oldest_min ho1 p2 m2
+      have le2 := oldest_min ho2 p1 ((hv p1).mp m1)
+      exact hc p1 (inl1 p1 m1).1 p2 (inl1 p2 m2).1 (inl1 p1 m1).2 (inl1 p2 m2).2 (by omega)
+
+/-- without the hypothesis the choice depends on the map order: two visible Kubernetes services for
+    one hostname in different namespaces (not a Kubernetes possibility; feeds C17). -/
+theorem pickBest_order_dependent_witness :
+    let a := mkSvc "a" "h.com" "ns1" 1 true [80] ["*"]
+    let b := mkSvc "b" "h.com" "ns2" 2 true [80] ["*"]
+    pickBest {} [("ns1", a), ("ns2", b)] "ns3" = "ns1" ∧ pickBest {} [("ns2", b), ("ns1", a)] "ns3" = "ns2" := by
+  decide +kernel
+
 end IstioModel.C07
